@@ -7,6 +7,17 @@ HERE = os.path.dirname(os.path.abspath(__file__))
 
 # property -> (technique, level text, level note, design ref)
 CLAIMED = {
+    'C05': ('mode-registry agreement (Mode literals / parse table / code_as table / leaf classes); wrapper-template analysis: each '
+            'f-string template is parsed by the stdlib parser with a placeholder and with a library of generic escape / continuation '
+            'probes, yielding which fields of the wrapper node text at {src} can populate or alter; read-set comparison per parser; '
+            'line fix-up arithmetic against the number of newlines before {src}',
+            'Static: decides for all 45 wrapper templates that the line fix-ups agree with the template and that every field of the '
+            'wrapper construct which source text can reach (extra call arguments, a grown placeholder, a return annotation, a guard, '
+            '...) is inspected by the parser, i.e. the wrapper cannot silently absorb or drop part of the source; plus registry '
+            'agreement for all modes. Position equality for arbitrary (multi-byte / commented / continued) fragments is not decided.',
+            'Trusts the probe library in sa/rules/c05.py (generic Python fragments) to cover the ways text can continue into or escape '
+            'from a syntactic position; parsing template constants with the stdlib parser is analysis of constants, not execution of pfst.',
+            'DESIGN.md §2 C05'),
     'C15': ('stale-after-yield typestate (dataflow over generator CFGs with in-node evaluation order) for locals holding AST '
             'nodes; non-None proof (path-sensitive truthiness facts) for every value popped from the walk stack and every '
             '.f/.a link before dereference; structural check that detaching marks the whole sub-tree dead',
@@ -127,7 +138,7 @@ NOT_APPLICABLE = {
            'conservation is value-level. Its two structural clauses are checked as R5.1 and R7.3.',
 }
 
-PLANNED = ['C01', 'C02', 'C04', 'C05', 'C06', 'C11']
+PLANNED = ['C01', 'C02', 'C04', 'C06', 'C11']
 
 
 def main():
